@@ -82,3 +82,55 @@ void h_PLSYPredictor_shape(void)
   VC_CHECK("YPredictor: output is objects x responses, whatever latent-variable count is requested (clamped to the scores given)", y->row == VC_N && y->col == VC_NY);
   VC_REACH();
 }
+
+/* PLSYPredictor values on exact instances (integer cells 0..3: every product and sum is exactly representable, so the
+ * obligation does not depend on the evaluation order): prediction[i][j] = (sum over the first min(requested, available)
+ * latent variables of b[lv] * score[i][lv] * yloading[j][lv]) * stored y scaling[j] + stored y average[j]. */
+#ifndef VC_SCALED
+#define VC_SCALED 1
+#endif
+static double small_cell(void)
+{
+  uint64_t v = vc_in_u64();
+  VC_ASSUME(v <= 3);
+  return (double)v;
+}
+void h_PLSYPredictor_values(void)
+{
+  matrix *ts, *y;
+  PLSMODEL *model;
+  double t[4][4], q[4][4], b[4], av[4], sc[4];
+  NewMatrix(&ts, VC_N, VC_NLV); initMatrix(&y);
+  NewPLSModel(&model);
+  ResizeMatrix(model->yloadings, VC_NY, VC_NLV);
+  DVectorResize(model->b, VC_NLV);
+  for(size_t i = 0; i < VC_N; i++)
+    for(size_t a = 0; a < VC_NLV; a++)
+      t[i][a] = ts->data[i][a] = small_cell();
+  for(size_t j = 0; j < VC_NY; j++)
+    for(size_t a = 0; a < VC_NLV; a++)
+      q[j][a] = model->yloadings->data[j][a] = small_cell();
+  for(size_t a = 0; a < VC_NLV; a++)
+    b[a] = model->b->data[a] = small_cell();
+  if(VC_SCALED) {
+    DVectorResize(model->ycolaverage, VC_NY);
+    DVectorResize(model->ycolscaling, VC_NY);
+    for(size_t j = 0; j < VC_NY; j++) {
+      av[j] = model->ycolaverage->data[j] = small_cell();
+      sc[j] = model->ycolscaling->data[j] = small_cell();
+    }
+  }
+  PLSYPredictor(ts, model, VC_REQ, y);
+  size_t used = VC_REQ < VC_NLV ? VC_REQ : VC_NLV;
+  VC_CHECK("YPredictor: output is objects x responses", y->row == VC_N && y->col == VC_NY);
+  for(size_t i = 0; i < VC_N; i++)
+    for(size_t j = 0; j < VC_NY; j++) {
+      double s = 0;
+      for(size_t a = 0; a < used; a++)
+        s += b[a] * t[i][a] * q[j][a];
+      if(VC_SCALED)
+        s = s * sc[j] + av[j];
+      VC_CHECK("YPredictor: prediction = (sum_lv b*score*yloading over the latent variables used) * y scaling + y average", y->data[i][j] == s);
+    }
+  VC_REACH();
+}
